@@ -11,7 +11,7 @@
    call-graph order (`lvl` strictly decreasing towards the bottom), which bounds the sum of weights by
    `uboundN`: a function of the geometry, the number of trees and the number of slots only. *)
 From Coq Require Import PeanoNat ZifyBool.
-From LLF Require Import Base Row Bitfield Lower Sorted Upper LowerMachine Progress ConcBase UpperMachine.
+From LLF Require Import Base Row Bitfield Lower Sorted Upper LowerMachine Progress ConcBase Policies UpperMachine.
 
 (* ---------- lists ---------- *)
 Lemma up_nth_lt {A} (l : list A) i x : nth_error l i = Some x -> (i < length l)%nat.
@@ -174,7 +174,8 @@ Section UProgress.
 
   (* results and values that are not panics *)
   Definition res_ok {A} (r : res A) : bool := match r with Panic _ => false | _ => true end.
-  Definition val_ok (v : val) : bool := match v with VR r => res_ok r | _ => true end.
+  Definition val_ok (v : val) : bool :=
+    match v with VR r => res_ok r | VL r => res_ok r | VG (GPanic _) => false | _ => true end.
 
   (* ---------- one access: the primitive continues with a smaller measure, or completes ---------- *)
   Definition pdec (u : upper) (p : prim) (u' : upper) (o : outcome) : Prop :=
@@ -283,3 +284,987 @@ Section UProgress.
       apply low_step_dec. exact Hok.
   Qed.
 End UProgress.
+
+Section UFrames.
+  Variable g : geom.
+  Variable policy : N -> N -> N -> pol.
+  Notation TH := (THUGE g).
+  Notation B := (boundN g).
+  Notation TU := (TU g).
+  Notation mprim := (mprim g).
+  Notation prim_ok := (prim_ok g).
+
+  (* ---------- weights of the continuation frames ---------- *)
+  Definition AW : N := TU + B + 1 + TU.                          (* one `access` closure *)
+  Definition wsb (sb : sbst) : N :=
+    N.of_nat (sb_n sb) * (1 + AW) + N.of_nat (length (sb_best sb)) * AW.
+  Definition SBW (nt : N) : N := (nt + 4) * (1 + AW).           (* one search_best *)
+  (* remaining (class index, slot index) pairs of a scan over 8 classes with <= ns slots each *)
+  Definition scan (ns i j : N) : N := (7 - i) * (ns + 1) + (ns - j).
+  Definition SCW (ns : N) : N := 8 * (ns + 1).
+  Definition G1f : N := B + SU + TU.
+  Definition wGL6 : N := SU + G1f + TU.
+  Definition wGL5 : N := TU + SU + wGL6.
+  Definition wGL1 (sync : bool) : N := if sync then G1f + TU + wGL5 else G1f.
+  Definition SLT : N := B + TU.
+  Definition DLT : N := 1 + TU + B + TU.
+  Definition SLW (ns : N) : N := SCW ns * SU + SLT.
+  Definition DLW (ns : N) : N := SCW ns * SU + DLT.
+  Definition wGet2 (ns : N) : N := SLW ns + DLW ns.
+
+  Definition wf (nt ns : N) (f : kframe) : N :=
+    match f with
+    | KGet1 _ _ => 2 * SBW nt + wGet2 ns
+    | KGet2 _ _ => wGet2 ns
+    | KOom1 _ _ => DLW ns
+    | KAt1 _ _ => TU + B + TU + wGet2 ns
+    | KGL1 _ _ _ _ sync => wGL1 sync
+    | KGL2 _ _ _ _ => SU + TU
+    | KGL3 _ _ | KGL4 _ _ => 0
+    | KGL5 _ _ _ _ _ => wGL5
+    | KGL6 _ _ _ _ _ _ => wGL6
+    | KSR1 _ _ _ _ => SBW nt
+    | KSBL sb => wsb sb + AW
+    | KSBA sb => wsb sb
+    | KSBT _ cands => N.of_nat (length cands) * AW
+    | KSe _ _ n => N.of_nat n * AW
+    | KRS1 _ _ _ _ => B + 1 + TU
+    | KRS2 _ _ _ _ _ _ => 1 + TU
+    | KRS3 _ _ => TU
+    | KUnres _ | KRetR _ => 0
+    | KSG1 _ _ _ => B + TU
+    | KSG2 _ _ _ => TU
+    | KSL1 _ _ i j => scan ns i j * SU + SLT
+    | KSL2 _ _ _ => TU
+    | KDL1 _ _ i j => scan ns i j * SU + DLT
+    | KDL2 _ _ _ => TU + B + TU
+    | KDL3 _ _ _ => B + TU
+    | KDL4 _ _ => TU
+    | KPut1 _ _ => SU + TU
+    | KPut2 _ _ => TU
+    | KDr1 c j => TU + scan ns c j * (1 + TU)
+    | KDr2 c j => scan ns c j * (1 + TU)
+    | KCh => 0
+    end.
+
+  Fixpoint mstk (nt ns : N) (k : list kframe) : N :=
+    match k with [] => 0 | f :: k' => wf nt ns f + mstk nt ns k' end.
+
+  (* ---------- the frames appear in call-graph order ---------- *)
+  Definition lvl (f : kframe) : nat :=
+    match f with
+    | KGet1 _ _ | KGet2 _ _ | KOom1 _ _ | KAt1 _ _ | KPut1 _ _ | KPut2 _ _ | KDr1 _ _ | KDr2 _ _
+    | KSe _ _ _ | KDL1 _ _ _ _ | KDL2 _ _ _ | KDL3 _ _ _ | KDL4 _ _ => 0
+    | KSR1 _ _ _ _ | KSL1 _ _ _ _ | KSL2 _ _ _
+    | KGL1 _ _ _ _ _ | KGL2 _ _ _ _ | KGL3 _ _ | KGL4 _ _ | KGL5 _ _ _ _ _ | KGL6 _ _ _ _ _ _ => 1
+    | KSBL _ | KSBA _ | KSBT _ _ => 2
+    | KRS1 _ _ _ _ | KRS2 _ _ _ _ _ _ | KRS3 _ _ | KSG1 _ _ _ | KSG2 _ _ _ | KCh => 3
+    | KUnres _ | KRetR _ => 4
+    end%nat.
+  (* 1 + level of the top frame *)
+  Definition hl (k : list kframe) : nat := match k with [] => 0 | f :: _ => S (lvl f) end.
+
+  (* ---------- well-formed frames ---------- *)
+  Definition ord_ok (o : nat) : bool := Nat.leb o (tord g).
+  Definition acc_ok (a : acc) : bool :=
+    match a with AcRos o _ _ => ord_ok o | AcSteal _ o => ord_ok o | AcChange _ _ _ => true end.
+  Definition sb_ok (nt : N) (sb : sbst) (extra : nat) : bool :=
+    acc_ok (sb_acc sb) && (N.of_nat (sb_n sb + length (sb_best sb) + extra) <=? nt + 4).
+  Definition kf_ok (nt : N) (f : kframe) : bool :=
+    match f with
+    | KGet1 r _ | KGet2 r _ | KOom1 r _ | KAt1 _ r | KSL1 r _ _ _ | KDL1 r _ _ _ | KDL2 r _ _ | KDL3 r _ _ =>
+        ord_ok (r_order r)
+    | KGL1 o _ _ _ _ | KGL5 o _ _ _ _ | KGL6 o _ _ _ _ _ | KSR1 o _ _ _ | KRS1 _ o _ _ | KSG1 _ o _ => ord_ok o
+    | KSBL sb => sb_ok nt sb 1
+    | KSBA sb => sb_ok nt sb 0
+    | KSBT sb cands => acc_ok (sb_acc sb) && (N.of_nat (length cands) <=? nt + 4)
+    | KSe a _ n => acc_ok a && (N.of_nat n <=? nt)
+    | KUnres r | KRetR r => res_ok r
+    | _ => true
+    end.
+  Fixpoint stk_ok (nt : N) (k : list kframe) : bool :=
+    match k with
+    | [] => true
+    | f :: k' => kf_ok nt f && Nat.leb (hl k') (lvl f) && stk_ok nt k'
+    end.
+  (* primitives as they are entered (not in the middle of a retry loop) *)
+  Definition is_entry (p : prim) : bool :=
+    match p with
+    | PLd _ | PTL _ _ | PSL _ _ _ | PSW _ _ _ => true
+    | PLow (TRun c pc) => match retry_site pc with None => true | Some _ => false end
+    | _ => false
+    end.
+  Definition act_ok (nt : N) (a : act) : bool :=
+    match a with
+    | ADo p k => prim_ok p && is_entry p && stk_ok nt k
+    | ARet v k => val_ok v && stk_ok nt k
+    | APanic SExceedingRetries => false
+    | APanic _ => true
+    end.
+  Definition mact (u : upper) (a : act) : N :=
+    match a with
+    | ADo p k => mprim u p + mstk (ntrees u) (nslots u) k
+    | ARet _ k => mstk (ntrees u) (nslots u) k
+    | APanic _ => 0
+    end.
+
+  (* `a` is well formed and costs at most M *)
+  Definition leq (u : upper) (a : act) (M : N) : Prop := act_ok (ntrees u) a = true /\ mact u a <= M.
+  (* a frame of level n may be pushed on k *)
+  Definition fits (u : upper) (n : nat) (k : list kframe) : Prop := stk_ok (ntrees u) k = true /\ (hl k <= n)%nat.
+  Notation W u k := (mstk (ntrees u) (nslots u) k).
+
+  Lemma fits_mono u n m k : fits u n k -> (n <= m)%nat -> fits u m k.
+  Proof. intros [H1 H2] H. split; [exact H1|lia]. Qed.
+  Lemma fits_push u f k : kf_ok (ntrees u) f = true -> fits u (lvl f) k -> fits u (S (lvl f)) (f :: k).
+  Proof.
+    intros Hf [H1 H2]. split; [|cbn [hl]; lia]. cbn [stk_ok]. rewrite Hf, H1.
+    replace (Nat.leb (hl k) (lvl f)) with true by (symmetry; apply Nat.leb_le; exact H2). reflexivity.
+  Qed.
+
+  Hypothesis WF : wf_geom g.
+
+  Lemma leq_ret u v k M : val_ok v = true -> stk_ok (ntrees u) k = true -> W u k <= M -> leq u (ARet v k) M.
+  Proof. intros Hv Hk HM. split; [cbn [act_ok]; rewrite Hv, Hk; reflexivity | exact HM]. Qed.
+  Lemma leq_do u p k M : prim_ok p = true -> is_entry p = true -> stk_ok (ntrees u) k = true ->
+    mprim u p + W u k <= M -> leq u (ADo p k) M.
+  Proof. intros Hv He Hk HM. split; [cbn [act_ok]; rewrite Hv, He, Hk; reflexivity | exact HM]. Qed.
+  Lemma leq_panic u s M : s <> SExceedingRetries -> leq u (APanic s) M.
+  Proof. intros H. split; [destruct s; try reflexivity; contradiction | cbn [mact]; lia]. Qed.
+  Lemma leq_bad u M : leq u bad M.
+  Proof. apply leq_panic. discriminate. Qed.
+  Lemma leq_ret_r u r k M : res_ok r = true -> stk_ok (ntrees u) k = true -> W u k <= M -> leq u (ret_r r k) M.
+  Proof.
+    intros Hr Hk HM. destruct r; cbn [ret_r]; try discriminate Hr; (apply leq_ret; [reflexivity | exact Hk | exact HM]).
+  Qed.
+
+  Lemma fits_nil u n : fits u n [].
+  Proof. split; [reflexivity | cbn [hl]; lia]. Qed.
+  Lemma fits_stk u n k : fits u n k -> stk_ok (ntrees u) k = true.
+  Proof. intros [H _]. exact H. Qed.
+  Lemma stk_push u f k : kf_ok (ntrees u) f = true -> fits u (lvl f) k -> stk_ok (ntrees u) (f :: k) = true.
+  Proof. intros Hf Hk. exact (proj1 (fits_push u f k Hf Hk)). Qed.
+
+  Ltac kfok :=
+    cbn [kf_ok acc_ok]; first [reflexivity | assumption | idtac].
+  Ltac fit :=
+    cbn [lvl];
+    lazymatch goal with
+    | |- fits _ _ (_ :: _) => eapply fits_mono; [apply fits_push; [kfok | fit] | cbn [lvl]; lia]
+    | |- fits _ _ [] => apply fits_nil
+    | |- fits _ _ _ => eapply fits_mono; [eassumption | cbn [lvl]; lia]
+    end.
+  Ltac stk :=
+    lazymatch goal with
+    | |- stk_ok _ (_ :: _) = true => apply stk_push; [kfok | fit]
+    | |- stk_ok _ _ = true => first [assumption | eapply fits_stk; eassumption]
+    end.
+  Ltac wts := cbn [mstk wf mprim length]; unfold wGL1, wGL5, wGL6, G1f, SLT, DLT, AW, wGet2, SLW, DLW, SU, UpperProgress.SU in *.
+
+  Lemma leq_tu u i f k M : stk_ok (ntrees u) k = true -> TU + W u k <= M -> leq u (enter_tu u i f k) M.
+  Proof.
+    intros Hk HM. unfold enter_tu. destruct (tree_ok u i).
+    - apply leq_do; [reflexivity | reflexivity | exact Hk | exact HM].
+    - apply leq_panic. discriminate.
+  Qed.
+  Lemma leq_tput u i fr k M : stk_ok (ntrees u) k = true -> TU + W u k <= M -> leq u (enter_tput u i fr k) M.
+  Proof. apply leq_tu. Qed.
+
+  Lemma leq_low u c k M : ord_ok (c_order c) = true -> stk_ok (ntrees u) k = true -> B + W u k <= M ->
+    leq u (enter_low g c k) M.
+  Proof.
+    intros Ho Hk HM. unfold enter_low. pose proof (entry_pc_ok g c Ho) as Hpc.
+    apply leq_do; [exact Hpc | | exact Hk |].
+    { cbn [is_entry]. unfold entry_pc. destruct c; destruct (Nat.leb (hord g) order); reflexivity. }
+    cbn [mprim].
+    pose proof (mu_bound g WF (m1_view u (TRun c (entry_pc g c))) c (entry_pc g c) Hpc). lia.
+  Qed.
+  Lemma lgc_order row o fr : c_order (low_get_call row o fr) = o.
+  Proof. destruct fr; reflexivity. Qed.
+  Lemma leq_lowget u row o fr k M : ord_ok o = true -> stk_ok (ntrees u) k = true -> B + W u k <= M ->
+    leq u (enter_low g (low_get_call row o fr) k) M.
+  Proof. intros Ho. apply leq_low. rewrite lgc_order. exact Ho. Qed.
+
+  Lemma leq_get_local u order class local frame sync k M : ord_ok order = true -> fits u 1 k ->
+    SU + wGL1 sync + W u k <= M -> leq u (enter_get_local g u order class local frame sync k) M.
+  Proof.
+    intros Ho Hk HM. unfold enter_get_local. destruct (class_locals u class) as [len|].
+    - destruct (local <? len).
+      + apply leq_do; [reflexivity | reflexivity | stk | wts; lia].
+      + apply leq_panic. discriminate.
+    - apply leq_ret; [reflexivity | stk | lia].
+  Qed.
+
+  Lemma leq_access u a i k M : acc_ok a = true -> fits u 3 k -> AW + W u k <= M -> leq u (enter_access u a i k) M.
+  Proof.
+    intros Ha Hk HM. destruct a; cbn [enter_access acc_ok] in *.
+    - apply leq_tu; [stk | wts; lia].
+    - apply leq_tu; [stk | wts; lia].
+    - destruct (tree_ok u i).
+      + apply leq_do; [reflexivity | reflexivity | stk | wts; unfold UpperProgress.TU in *; lia].
+      + apply leq_ret; [reflexivity | stk | lia].
+  Qed.
+
+  (* ----- search_best / search ----- *)
+  Lemma mul_le_r a b w : a <= b -> a * w <= b * w.
+  Proof. apply N.mul_le_mono_r. Qed.
+
+  Lemma leq_sb_try u sb cands k M : acc_ok (sb_acc sb) = true -> N.of_nat (length cands) <= ntrees u + 4 ->
+    fits u 2 k -> N.of_nat (length cands) * AW + W u k <= M -> leq u (sb_try u sb cands k) M.
+  Proof.
+    intros Ha Hn Hk HM. destruct cands as [|[key i] r]; cbn [sb_try].
+    - apply leq_ret; [reflexivity | stk | cbn [length] in HM; lia].
+    - cbn [length] in *. apply leq_access; [exact Ha | fit | cbn [mstk wf]; lia].
+      rewrite Ha. apply N.leb_le. lia.
+  Qed.
+
+  Lemma leq_sb_next u sb k M : sb_ok (ntrees u) sb 0 = true -> fits u 2 k -> wsb sb + W u k <= M ->
+    leq u (sb_next u sb k) M.
+  Proof.
+    intros Hs Hk HM. unfold sb_ok in Hs. apply andb_true_iff in Hs. destruct Hs as [Ha Hn]. apply N.leb_le in Hn.
+    unfold sb_next. unfold wsb in HM. destruct (sb_n sb) as [|n] eqn:En.
+    - apply leq_sb_try; [exact Ha | | exact Hk |]; unfold sb_iter_rev; rewrite rev_length; lia.
+    - destruct (tree_ok u _).
+      + apply leq_do; [reflexivity | reflexivity | stk |].
+        * unfold sb_ok. cbn [sb_adv sb_acc sb_n sb_best]. rewrite Ha, En. apply N.leb_le. cbn [pred]. lia.
+        * cbn [mstk wf mprim]. unfold wsb. cbn [sb_adv sb_n sb_best]. rewrite En. cbn [pred]. lia.
+      + apply leq_panic. discriminate.
+  Qed.
+
+  Lemma leq_enter_sb u a rt cap start offset len k M : acc_ok a = true -> len - offset <= ntrees u + 4 ->
+    fits u 2 k -> SBW (ntrees u) + W u k <= M -> leq u (enter_sb u a rt cap start offset len k) M.
+  Proof.
+    intros Ha Hn Hk HM. unfold enter_sb. destruct ((0 <? len - offset) && (ntrees u =? 0)).
+    - apply leq_panic. discriminate.
+    - apply leq_sb_next; [| exact Hk |].
+      + unfold sb_ok. cbn [sb_acc sb_n sb_best length]. rewrite Ha. apply N.leb_le. unfold nn. lia.
+      + unfold wsb. cbn [sb_n sb_best length]. unfold SBW in HM.
+        pose proof (mul_le_r (N.of_nat (nn (len - offset))) (ntrees u + 4) (1 + AW) ltac:(unfold nn; lia)). lia.
+  Qed.
+
+  Lemma leq_se_next u a i n k M : acc_ok a = true -> N.of_nat n <= ntrees u -> fits u 0 k ->
+    N.of_nat n * AW + W u k <= M -> leq u (se_next u a i n k) M.
+  Proof.
+    intros Ha Hn Hk HM. destruct n as [|n]; cbn [se_next].
+    - apply leq_ret; [reflexivity | stk | lia].
+    - apply leq_access; [exact Ha | fit | cbn [mstk wf]; lia].
+      rewrite Ha. apply N.leb_le. lia.
+  Qed.
+
+  Lemma near_le nt : N.max (nt / 16) 4 - 1 <= nt + 4.
+  Proof.
+    assert (nt / 16 <= nt) by (apply N.div_le_upper_bound; lia). lia.
+  Qed.
+
+  Lemma leq_sr u order class local start k M : ord_ok order = true -> fits u 1 k ->
+    2 * SBW (ntrees u) + W u k <= M -> leq u (enter_search_and_reserve g u order class local start k) M.
+  Proof.
+    intros Ho Hk HM. unfold enter_search_and_reserve. destruct (Nat.ltb order (hord g)).
+    - apply leq_enter_sb; [exact Ho | apply near_le | fit | cbn [mstk wf]; lia].
+    - apply leq_enter_sb; [exact Ho | lia | fit | lia].
+  Qed.
+
+  (* ----- the scans over (class index, slot index) ----- *)
+  Definition scan_out (ns i j i' j' : N) : Prop :=
+    i' < 8 /\ j' < ns /\ ((i' = i /\ j' = j) \/ (i < i' /\ j' = 0)).
+
+  Lemma scan_out_next ns i i' j' : scan_out ns (i + 1) 0 i' j' -> forall j, scan_out ns i j i' j'.
+  Proof. intros (H1 & H2 & H3) j. split; [exact H1|split; [exact H2|]]. right. lia. Qed.
+
+  Lemma steal_scan_spec u class free n : forall i j i' j',
+    steal_scan policy u class free i j n = Some (i', j') -> scan_out (nslots u) i j i' j'.
+  Proof.
+    induction n as [|n IH]; intros i j i' j'; cbn [steal_scan]; [discriminate|].
+    destruct (8 <=? i) eqn:E8; [discriminate|].
+    destruct (class_slots u ((i + class) mod 8)) as [l|] eqn:El.
+    2: { intros H. apply scan_out_next, IH, H. }
+    pose proof (class_slots_le u _ l El) as Hle.
+    destruct (policy class ((i + class) mod 8) free); try (intros H; apply scan_out_next, IH, H).
+    all: destruct (j <? N.of_nat (length l)) eqn:Ej; try (intros H; apply scan_out_next, IH, H).
+    all: intros H; injection H as <- <-; unfold scan_out; lia.
+  Qed.
+
+  Lemma demote_scan_spec u class free n : forall i j i' j',
+    demote_scan policy u class free i j n = Some (i', j') -> scan_out (nslots u) i j i' j'.
+  Proof.
+    induction n as [|n IH]; intros i j i' j'; cbn [demote_scan]; [discriminate|].
+    destruct (8 <=? i) eqn:E8; [discriminate|].
+    destruct (class_slots u ((i + class) mod 8)) as [l|] eqn:El.
+    2: { intros H. apply scan_out_next, IH, H. }
+    pose proof (class_slots_le u _ l El) as Hle.
+    destruct (policy class ((i + class) mod 8) free); try (intros H; apply scan_out_next, IH, H).
+    all: destruct (j <? N.of_nat (length l)) eqn:Ej; try (intros H; apply scan_out_next, IH, H).
+    all: intros H; injection H as <- <-; unfold scan_out; lia.
+  Qed.
+
+  Lemma drain_scan_spec u n : forall c j c' j',
+    drain_scan u c j n = Some (c', j') -> scan_out (nslots u) c j c' j'.
+  Proof.
+    induction n as [|n IH]; intros c j c' j'; cbn [drain_scan]; [discriminate|].
+    destruct (8 <=? c) eqn:E8; [discriminate|].
+    unfold class_locals. destruct (class_slots u c) as [l|] eqn:El; cbn [option_map].
+    2: { intros H. apply scan_out_next, IH, H. }
+    pose proof (class_slots_le u _ l El) as Hle.
+    destruct (j <? N.of_nat (length l)) eqn:Ej; try (intros H; apply scan_out_next, IH, H).
+    intros H; injection H as <- <-; unfold scan_out; lia.
+  Qed.
+
+  (* the scan measure: decreases from a tried pair to the next one, bounded at entry *)
+  Lemma scan_step ns i0 j0 i' j' : scan_out ns i0 (j0 + 1) i' j' -> scan ns i' j' + 1 <= scan ns i0 j0.
+  Proof.
+    intros (H1 & H2 & [[-> ->] | [H3 ->]]); unfold scan.
+    - lia.
+    - pose proof (mul_le_r ((7 - i') + 1) (7 - i0) (ns + 1) ltac:(lia)). lia.
+  Qed.
+  Lemma scan_first ns i' j' : scan ns i' j' + 1 <= SCW ns.
+  Proof.
+    unfold scan, SCW. pose proof (mul_le_r (7 - i') 7 (ns + 1) ltac:(lia)). lia.
+  Qed.
+
+  Lemma leq_sl_next u r frame i j k M : ord_ok (r_order r) = true -> fits u 1 k -> W u k <= M ->
+    (forall i' j', scan_out (nslots u) i j i' j' -> (scan (nslots u) i' j' + 1) * SU + SLT + W u k <= M) ->
+    leq u (sl_next g policy u r frame i j k) M.
+  Proof.
+    intros Ho Hk H0 HM. unfold sl_next.
+    destruct (steal_scan policy u (r_class r) (pow2 (r_order r)) i j 9) as [[i' j']|] eqn:E.
+    - apply steal_scan_spec in E. specialize (HM i' j' E).
+      apply leq_do; [reflexivity | reflexivity | stk | wts; lia].
+    - apply leq_ret; [reflexivity | stk | exact H0].
+  Qed.
+
+  Lemma leq_dl_next u r frame i j k M : ord_ok (r_order r) = true -> fits u 0 k -> W u k <= M ->
+    (forall i' j', scan_out (nslots u) i j i' j' -> (scan (nslots u) i' j' + 1) * SU + DLT + W u k <= M) ->
+    leq u (dl_next g policy u r frame i j k) M.
+  Proof.
+    intros Ho Hk H0 HM. unfold dl_next.
+    destruct (demote_scan policy u (r_class r) (pow2 (r_order r)) i j 9) as [[i' j']|] eqn:E.
+    - apply demote_scan_spec in E. specialize (HM i' j' E).
+      apply leq_do; [reflexivity | reflexivity | stk | wts; lia].
+    - apply leq_ret; [reflexivity | stk | exact H0].
+  Qed.
+
+  Lemma leq_dr_next u c j k M : fits u 0 k -> W u k <= M ->
+    (forall c' j', scan_out (nslots u) c j c' j' -> (scan (nslots u) c' j' + 1) * (1 + TU) + W u k <= M) ->
+    leq u (dr_next u c j k) M.
+  Proof.
+    intros Hk H0 HM. unfold dr_next.
+    destruct (drain_scan u c j 9) as [[c' j']|] eqn:E.
+    - apply drain_scan_spec in E. specialize (HM c' j' E).
+      apply leq_do; [reflexivity | reflexivity | stk | wts; lia].
+    - apply leq_ret; [reflexivity | stk | exact H0].
+  Qed.
+
+  Lemma leq_steal_local u r frame k M : ord_ok (r_order r) = true -> fits u 1 k -> SLW (nslots u) + W u k <= M ->
+    leq u (enter_steal_local g policy u r frame k) M.
+  Proof.
+    intros Ho Hk HM. unfold enter_steal_local. apply leq_sl_next; [exact Ho | exact Hk | lia |].
+    intros i' j' _. pose proof (scan_first (nslots u) i' j') as H.
+    apply (mul_le_r _ _ SU) in H. unfold SLW in HM. lia.
+  Qed.
+
+  Lemma leq_demote_local u r frame k M : ord_ok (r_order r) = true -> fits u 0 k -> DLW (nslots u) + W u k <= M ->
+    leq u (enter_demote_local g policy u r frame k) M.
+  Proof.
+    intros Ho Hk HM. unfold enter_demote_local. destruct (class_slots u (r_class r)).
+    - apply leq_dl_next; [exact Ho | exact Hk | lia |].
+      intros i' j' _. pose proof (scan_first (nslots u) i' j') as H.
+      apply (mul_le_r _ _ SU) in H. unfold DLW in HM. lia.
+    - apply leq_ret; [reflexivity | stk | lia].
+  Qed.
+
+  Lemma leq_after_local u f r k M : ord_ok (r_order r) = true -> fits u 0 k ->
+    TU + B + TU + wGet2 (nslots u) + W u k <= M -> leq u (after_local g u f r k) M.
+  Proof.
+    intros Ho Hk HM. unfold after_local, enter_steal_global. apply leq_tu; [stk | wts; lia].
+  Qed.
+
+  (* ----- the program points ----- *)
+  Lemma insert_at_length {K V} n (x : K * V) buf : length (insert_at n x buf) = S (length buf).
+  Proof. revert buf; induction n; intros [|a r]; cbn [insert_at length]; try reflexivity. rewrite IHn. reflexivity. Qed.
+  Lemma sb_add_length {K V} le cap (buf : list (K * V)) x : (length (sb_add le cap buf x) <= S (length buf))%nat.
+  Proof.
+    unfold sb_add. destruct (Nat.ltb (length buf) cap).
+    - rewrite insert_at_length. lia.
+    - destruct (sb_pos le (fst x) buf); [lia|]. rewrite insert_at_length. destruct buf; cbn [tl length]; lia.
+  Qed.
+
+  Lemma leq_sb_next_add u sb x k M : sb_ok (ntrees u) sb 1 = true -> fits u 2 k -> wsb sb + AW + W u k <= M ->
+    leq u (sb_next u {| sb_acc := sb_acc sb; sb_rate := sb_rate sb; sb_cap := sb_cap sb; sb_start := sb_start sb;
+                        sb_i := sb_i sb; sb_n := sb_n sb;
+                        sb_best := sb_add N.leb (sb_cap sb) (sb_best sb) x |} k) M.
+  Proof.
+    intros Hs Hk HM. unfold sb_ok in Hs. apply andb_true_iff in Hs. destruct Hs as [Ha Hn]. apply N.leb_le in Hn.
+    pose proof (sb_add_length N.leb (sb_cap sb) (sb_best sb) x) as Hl.
+    apply leq_sb_next; [| exact Hk |].
+    - unfold sb_ok. cbn [sb_acc sb_n sb_best]. rewrite Ha. apply N.leb_le. lia.
+    - unfold wsb in *. cbn [sb_n sb_best].
+      pose proof (mul_le_r (N.of_nat (length (sb_add N.leb (sb_cap sb) (sb_best sb) x)))
+                           (N.of_nat (length (sb_best sb)) + 1) AW ltac:(lia)). lia.
+  Qed.
+  Lemma leq_sb_next_same u sb k M : sb_ok (ntrees u) sb 1 = true -> fits u 2 k -> wsb sb + AW + W u k <= M ->
+    leq u (sb_next u sb k) M.
+  Proof.
+    intros Hs Hk HM. apply leq_sb_next; [| exact Hk | lia].
+    unfold sb_ok in *. apply andb_true_iff in Hs. destruct Hs as [Ha Hn]. apply N.leb_le in Hn.
+    rewrite Ha. apply N.leb_le. lia.
+  Qed.
+
+  Ltac split_act :=
+    repeat lazymatch goal with
+    | |- leq _ (match ?x with _ => _ end) _ => destruct x eqn:?
+    end.
+  Ltac leaf :=
+    lazymatch goal with
+    | |- leq _ (ARet _ _) _ => apply leq_ret; [first [reflexivity | assumption] | stk | wts; lia]
+    | |- leq _ (APanic _) _ => apply leq_panic; discriminate
+    | |- leq _ bad _ => apply leq_bad
+    | |- leq _ (ADo _ _) _ => apply leq_do; [reflexivity | reflexivity | stk | wts; lia]
+    | |- leq _ (ret_r _ _) _ => apply leq_ret_r; [assumption | stk | wts; lia]
+    | |- leq _ (enter_tu _ _ _ _) _ => apply leq_tu; [stk | wts; lia]
+    | |- leq _ (enter_tput _ _ _ _) _ => apply leq_tput; [stk | wts; lia]
+    | |- leq _ (enter_low _ (low_get_call _ _ _) _) _ => apply leq_lowget; [assumption | stk | wts; lia]
+    | |- leq _ (enter_low _ _ _) _ => apply leq_low; [assumption | stk | wts; lia]
+    | |- leq _ (enter_get_local _ _ _ _ _ _ _ _) _ => apply leq_get_local; [assumption | fit | wts; lia]
+    | |- leq _ (enter_search_and_reserve _ _ _ _ _ _ _) _ => apply leq_sr; [assumption | fit | wts; lia]
+    | |- leq _ (enter_steal_local _ _ _ _ _ _) _ => apply leq_steal_local; [assumption | fit | wts; lia]
+    | |- leq _ (enter_demote_local _ _ _ _ _ _) _ => apply leq_demote_local; [assumption | fit | wts; lia]
+    | |- leq _ (after_local _ _ _ _ _) _ => apply leq_after_local; [assumption | fit | wts; lia]
+    | |- leq _ (enter_sb _ _ _ _ _ _ _ _) _ => apply leq_enter_sb; [assumption | lia | fit | wts; lia]
+    | |- leq _ (sb_next _ (Build_sbst _ _ _ _ _ _ _) _) (wf _ _ (KSBL _) + _) =>
+        apply leq_sb_next_add; [assumption | fit | cbn [wf]; lia]
+    | |- leq _ (sb_next _ _ _) (wf _ _ (KSBL _) + _) => apply leq_sb_next_same; [assumption | fit | cbn [wf]; lia]
+    | |- leq _ (sb_next _ _ _) (wf _ _ (KSBA _) + _) => apply leq_sb_next; [assumption | fit | cbn [wf]; lia]
+    | _ => idtac
+    end.
+
+  Lemma resume_le u v f k : val_ok v = true -> stk_ok (ntrees u) (f :: k) = true ->
+    leq u (resume g policy u v f k) (wf (ntrees u) (nslots u) f + W u k).
+  Proof.
+    intros Hv Hs. cbn [stk_ok] in Hs. apply andb_true_iff in Hs. destruct Hs as [Hs Hk].
+    apply andb_true_iff in Hs. destruct Hs as [Hf Hl]. apply Nat.leb_le in Hl.
+    assert (Hfit : fits u (lvl f) k) by (split; assumption).
+    clear Hl.
+    destruct f; try destruct sync; cbn [lvl] in Hfit; cbn [kf_ok] in Hf; destruct v; cbn [resume andb]; try apply leq_bad.
+    all: split_act.
+    all: cbn [val_ok res_ok] in Hv; try discriminate Hv.
+    all: try solve [leaf].
+    - (* KSBL: a perfect match *)
+      unfold sb_ok in Hf. apply andb_true_iff in Hf. destruct Hf as [Ha Hn]. apply N.leb_le in Hn.
+      apply leq_access; [exact Ha | fit | cbn [wf mstk]; lia].
+      unfold sb_ok. rewrite Ha. apply N.leb_le. lia.
+    - (* KSBT *)
+      apply andb_true_iff in Hf. destruct Hf as [Ha Hn]. apply N.leb_le in Hn.
+      apply leq_sb_try; [exact Ha | exact Hn | fit | cbn [wf]; lia].
+    - (* KSe *)
+      apply andb_true_iff in Hf. destruct Hf as [Ha Hn]. apply N.leb_le in Hn.
+      apply leq_se_next; [exact Ha | exact Hn | fit | cbn [wf]; lia].
+    - (* KSL1 *)
+      apply leq_sl_next; [exact Hf | fit | cbn [wf]; lia |].
+      intros i' j' Ho. apply scan_step in Ho. apply (mul_le_r _ _ SU) in Ho. cbn [wf]. lia.
+    - (* KDL1 *)
+      apply leq_dl_next; [exact Hf | fit | cbn [wf]; lia |].
+      intros i' j' Ho. apply scan_step in Ho. apply (mul_le_r _ _ SU) in Ho. cbn [wf]. lia.
+    - (* KDr1 *)
+      apply leq_dr_next; [fit | cbn [wf]; lia |].
+      intros i' j' Ho. apply scan_step in Ho. apply (mul_le_r _ _ (1 + TU)) in Ho. cbn [wf]. lia.
+    - (* KDr2 *)
+      apply leq_dr_next; [fit | cbn [wf]; lia |].
+      intros i' j' Ho. apply scan_step in Ho. apply (mul_le_r _ _ (1 + TU)) in Ho. cbn [wf]. lia.
+    - (* KCh *)
+      apply leq_ret; [destruct ok; reflexivity | stk | cbn [wf]; lia].
+  Qed.
+
+  (* ----- the entry of a call ----- *)
+  Lemma check_ord u fr r x : check g u fr r = Ok x -> ord_ok (r_order r) = true.
+  Proof.
+    unfold check, ord_ok. destruct (Nat.leb (r_order r) (tord g)); [reflexivity | cbn [negb]; discriminate].
+  Qed.
+
+  Lemma check_no_panic u fr r x : check g u fr r <> Panic x.
+  Proof.
+    unfold check. repeat match goal with |- (if ?x then _ else _) <> _ => destruct x end; try discriminate.
+    all: destruct (class_locals u (r_class r)); discriminate.
+  Qed.
+
+  Lemma leq_global u r k M : ord_ok (r_order r) = true -> fits u 0 k ->
+    SBW (ntrees u) + wGet2 (nslots u) + W u k <= M -> leq u (enter_global u r k) M.
+  Proof.
+    intros Ho Hk HM. unfold enter_global. apply leq_enter_sb; [exact Ho | lia | fit | wts; lia].
+  Qed.
+
+  Lemma enter_call_leq u c : exists M, leq u (enter_call g u c) M.
+  Proof.
+    destruct c as [frame r|frame r| |m ch]; cbn [enter_call].
+    - unfold enter_get. destruct (check g u _ r) eqn:Ec.
+      2: { eexists. apply leq_ret; [reflexivity | reflexivity | apply N.le_refl]. }
+      2: { exfalso. eapply check_no_panic; exact Ec. }
+      apply check_ord in Ec.
+      destruct frame as [f|].
+      + unfold enter_get_at. destruct (r_local r).
+        * eexists. apply leq_get_local; [exact Ec | fit | apply N.le_refl].
+        * eexists. apply leq_after_local; [exact Ec | fit | apply N.le_refl].
+      + assert (HG : exists M, leq u (enter_global u r []) M)
+          by (eexists; apply leq_global; [exact Ec | fit | apply N.le_refl]).
+        destruct (r_local r); [|exact HG].
+        destruct (_ && _); [|exact HG].
+        eexists. apply leq_get_local; [exact Ec | fit | apply N.le_refl].
+    - unfold enter_put. destruct (check g u frame r) eqn:Ec.
+      2: { eexists. apply leq_ret; [reflexivity | reflexivity | apply N.le_refl]. }
+      2: { exfalso. eapply check_no_panic; exact Ec. }
+      apply check_ord in Ec.
+      eexists. apply leq_low; [exact Ec | stk | apply N.le_refl].
+    - eexists. apply leq_dr_next; [fit | apply N.le_0_l |]. 
+      intros c' j' _. cbn [mstk]. pose proof (scan_first (nslots u) c' j') as H.
+      apply (mul_le_r _ _ (1 + TU)) in H. rewrite N.add_0_r. exact H.
+    - unfold enter_change. destruct (m_id m).
+      + eexists. apply leq_access; [reflexivity | fit | apply N.le_refl].
+      + destruct (ntrees u =? 0).
+        * eexists. apply leq_ret; [reflexivity | reflexivity | apply N.le_refl].
+        * eexists. apply leq_se_next; [reflexivity | unfold ntrees; lia | fit | apply N.le_refl].
+  Qed.
+
+  (* ----- following return chains ----- *)
+  Definition settled_ok (u : upper) (M : N) (x : UpperMachine.settled) : Prop :=
+    match x with
+    | SRun p k => prim_ok p = true /\ is_entry p = true /\ stk_ok (ntrees u) k = true /\ mprim u p + W u k <= M
+    | SDone _ => True
+    | SCrash x => x <> SExceedingRetries
+    end.
+
+  Lemma settle_le fuel : forall u a M, leq u a M -> settled_ok u M (settle g policy fuel u a).
+  Proof.
+    induction fuel as [|fuel IH]; intros u a M [Hok HM].
+    - destruct a as [p k|v [|f k]|s]; cbn [settle settled_ok].
+      + cbn [act_ok] in Hok. apply andb_true_iff in Hok. destruct Hok as [Hok Hk].
+        apply andb_true_iff in Hok. destruct Hok as [Hp He]. repeat split; assumption.
+      + cbn [act_ok] in Hok. destruct v as [| |r|[| |]|]; cbn [settled_ok]; try discriminate; exact I.
+      + discriminate.
+      + destruct s; cbn [act_ok] in Hok; discriminate.
+    - destruct a as [p k|v [|f k]|s]; cbn [settle settled_ok].
+      + cbn [act_ok] in Hok. apply andb_true_iff in Hok. destruct Hok as [Hok Hk].
+        apply andb_true_iff in Hok. destruct Hok as [Hp He]. repeat split; assumption.
+      + cbn [act_ok] in Hok. destruct v as [| |r|[| |]|]; cbn [settled_ok]; try discriminate; exact I.
+      + cbn [act_ok] in Hok. apply andb_true_iff in Hok. destruct Hok as [Hv Hk].
+        apply IH. pose proof (resume_le u v f k Hv Hk) as [H1 H2]. split; [exact H1|].
+        cbn [mact mstk] in HM. lia.
+      + destruct s; cbn [act_ok] in Hok; discriminate.
+  Qed.
+End UFrames.
+
+(* ---------- the statement's vocabulary ---------- *)
+Definition usoloN (g : geom) (policy : N -> N -> N -> pol) (n : nat) (s : m2state) (t : nat) : m2state :=
+  Nat.iter n (fun s => fst (ustep g policy s t UDrain)) s.
+
+Definition usettled (s : m2state) (t : nat) : bool :=
+  match nth_error (m2_pool s) t with Some (URun _ _ _) => false | _ => true end.
+
+(* a CAS of a retry loop: a tree entry, a local slot, or a CAS site of the embedded lower call *)
+Inductive usite := USTree (i : N) | USSlot (c idx : N) | USLow (k : nat * N * N).
+
+Section UTheorems.
+  Variable g : geom.
+  Variable policy : N -> N -> N -> pol.
+  Notation TH := (THUGE g).
+  Notation B := (boundN g).
+  Notation TU := (TU g).
+  Notation mprim := (mprim g).
+  Notation prim_ok := (prim_ok g).
+  Notation stk_ok := (stk_ok g).
+  Notation W u k := (mstk g (ntrees u) (nslots u) k).
+  Notation ustep := (ustep g policy).
+
+  (* the primitive and the continuation stack of thread t are well formed *)
+  Definition uthread_ok (s : m2state) (t : nat) : Prop :=
+    match nth_error (m2_pool s) t with
+    | Some (URun _ p k) => prim_ok p = true /\ stk_ok (ntrees (m2_up s)) k = true
+    | _ => True
+    end.
+
+  Definition thr_of (c : ucall) (x : UpperMachine.settled) : uthr :=
+    match x with SRun p k => URun c p k | SDone r => UIdle (Some r) | SCrash x => UPanic x c end.
+
+  Lemma apply_settled_up s t c x : m2_up (apply_settled s t c x) = m2_up s.
+  Proof. destruct x as [p k|r|x]; cbn [apply_settled]; try reflexivity. unfold ufinish. destruct c, r as [[? ?]| |]; reflexivity. Qed.
+  Lemma apply_settled_pool s t c x : m2_pool (apply_settled s t c x) = upd (m2_pool s) t (thr_of c x).
+  Proof. destruct x as [p k|r|x]; cbn [apply_settled]; try reflexivity. unfold ufinish. destruct c, r as [[? ?]| |]; reflexivity. Qed.
+
+  Hypothesis WF : wf_geom g.
+
+  (* what one step of a running, well-formed thread does *)
+  Definition udec (s : m2state) (t : nat) (c : ucall) (p : prim) (k : list kframe) (s' : m2state) : Prop :=
+    ntrees (m2_up s') = ntrees (m2_up s) /\ nslots (m2_up s') = nslots (m2_up s) /\
+    (forall t', t' <> t -> nth_error (m2_pool s') t' = nth_error (m2_pool s) t') /\
+    match nth_error (m2_pool s') t with
+    | Some (URun c' p' k') =>
+        c' = c /\ prim_ok p' = true /\ stk_ok (ntrees (m2_up s')) k' = true /\
+        mprim (m2_up s') p' + W (m2_up s') k' < mprim (m2_up s) p + W (m2_up s) k /\
+        (is_entry p' = true \/ (k' = k /\ exists ev, prim_step g policy (m2_up s) p = (m2_up s', ev, OStay p')))
+    | Some (UPanic x _) => x = SExceedingRetries -> exists lc i, p = PLow (TRun lc (PP3 i))
+    | Some (UIdle _) => True
+    | None => False
+    end.
+
+  Lemma ustep_dec s t c p k c0 : nth_error (m2_pool s) t = Some (URun c p k) ->
+    prim_ok p = true -> stk_ok (ntrees (m2_up s)) k = true -> udec s t c p k (fst (ustep s t c0)).
+  Proof.
+    intros Hth Hp Hk. unfold UpperMachine.ustep. rewrite Hth.
+    pose proof (prim_step_dec g policy (m2_up s) p Hp) as Hd.
+    pose proof (up_nth_lt _ _ _ Hth) as Hlt.
+    destruct (prim_step g policy (m2_up s) p) as [[u' ev] o] eqn:Eps. cbn [fst].
+    destruct Hd as (Hn1 & Hn2 & Hd).
+    destruct o as [p'|v|x].
+    - unfold udec. cbn [set_uthr with_up m2_up m2_pool]. split; [exact Hn1|split; [exact Hn2|split]].
+      + intros t' Hne. apply nth_error_upd_other. congruence.
+      + rewrite nth_error_upd_same by exact Hlt. destruct Hd as [Hm Hp'].
+        split; [reflexivity|split; [exact Hp'|split; [rewrite Hn1; exact Hk|split]]].
+        * rewrite Hn1, Hn2. lia.
+        * right. split; [reflexivity|]. exists ev. exact Eps.
+    - pose proof (settle_le g policy WF SETTLE u' (ARet v k) (W u' k)) as Hs.
+      assert (Hl : leq g u' (ARet v k) (W u' k)).
+      { split; [cbn [act_ok]; rewrite Hd, Hn1, Hk; reflexivity | apply N.le_refl]. }
+      specialize (Hs Hl). unfold udec.
+      rewrite apply_settled_up, apply_settled_pool. cbn [with_up m2_up m2_pool].
+      split; [exact Hn1|split; [exact Hn2|split]].
+      + intros t' Hne. apply nth_error_upd_other. congruence.
+      + rewrite nth_error_upd_same by exact Hlt.
+        destruct (settle g policy SETTLE u' (ARet v k)) as [p1 k1|r|x]; cbn [thr_of settled_ok] in *.
+        * destruct Hs as (H1 & H2 & H3 & H4). pose proof (mprim_pos g policy (m2_up s) p).
+          split; [reflexivity|split; [exact H1|split; [exact H3|split; [|left; exact H2]]]].
+          rewrite <- Hn1, <- Hn2. lia.
+        * exact I.
+        * intros ->. contradiction.
+    - unfold udec. cbn [set_uthr with_up m2_up m2_pool]. split; [exact Hn1|split; [exact Hn2|split]].
+      + intros t' Hne. apply nth_error_upd_other. congruence.
+      + rewrite nth_error_upd_same by exact Hlt. exact Hd.
+  Qed.
+
+  (* ---------- the closed-form bound ---------- *)
+  Definition cap (nt ns : N) (l : nat) : N :=
+    match l with
+    | 0%nat => N.max (2 * SBW g nt + wGet2 g ns + TU + B + TU + SU) (N.max (nt * AW g) (TU + SCW ns * (1 + TU)))
+    | 1%nat => N.max (SBW g nt) (N.max (SCW ns * SU + SLT g) (wGL1 g true))
+    | 2%nat => SBW g nt
+    | 3%nat => B + 1 + TU
+    | _ => 0
+    end.
+  Fixpoint capsum (nt ns : N) (n : nat) : N :=
+    match n with O => 0 | S m => cap nt ns m + capsum nt ns m end.
+  Definition uboundN (nt ns : N) : N := 2 * TH + 3 + B + capsum nt ns 5.
+
+  Lemma capsum_mono nt ns n m : (n <= m)%nat -> capsum nt ns n <= capsum nt ns m.
+  Proof. induction 1; [lia|]. cbn [capsum]. lia. Qed.
+
+  Lemma wf_cap nt ns f : kf_ok g nt f = true -> wf g nt ns f <= cap nt ns (lvl f).
+  Proof.
+    intros Hf.
+    pose proof (fun i j => scan_first policy ns i j) as Hsc.
+    destruct f; cbn [wf lvl cap kf_ok] in *; unfold wGet2, SLW, DLW, wGL1, wGL5, wGL6, G1f, SLT, DLT, SU in *; try lia.
+    - (* KGL1 *) destruct sync; lia.
+    - (* KSBL *) unfold sb_ok in Hf. apply andb_true_iff in Hf. destruct Hf as [_ Hn]. apply N.leb_le in Hn.
+      unfold wsb, SBW.
+      pose proof (mul_le_r (N.of_nat (sb_n sb) + N.of_nat (length (sb_best sb)) + 1) (nt + 4) (1 + AW g) ltac:(lia)). lia.
+    - (* KSBA *) unfold sb_ok in Hf. apply andb_true_iff in Hf. destruct Hf as [_ Hn]. apply N.leb_le in Hn.
+      unfold wsb, SBW.
+      pose proof (mul_le_r (N.of_nat (sb_n sb) + N.of_nat (length (sb_best sb))) (nt + 4) (1 + AW g) ltac:(lia)). lia.
+    - (* KSBT *) apply andb_true_iff in Hf. destruct Hf as [_ Hn]. apply N.leb_le in Hn. unfold SBW.
+      pose proof (mul_le_r (N.of_nat (length cands)) (nt + 4) (1 + AW g) Hn). lia.
+    - (* KSe *) apply andb_true_iff in Hf. destruct Hf as [_ Hn]. apply N.leb_le in Hn.
+      pose proof (mul_le_r (N.of_nat n) nt (AW g) Hn). lia.
+    - (* KSL1 *) pose proof (mul_le_r _ _ 2 (Hsc i j)). lia.
+    - (* KDL1 *) pose proof (mul_le_r _ _ 2 (Hsc i j)). lia.
+    - (* KDr1 *) pose proof (mul_le_r _ _ (1 + TU) (Hsc c j)). lia.
+    - (* KDr2 *) pose proof (mul_le_r _ _ (1 + TU) (Hsc c j)). lia.
+  Qed.
+
+  Lemma mstk_le nt ns k : stk_ok nt k = true -> mstk g nt ns k <= capsum nt ns (hl k).
+  Proof.
+    induction k as [|f k IH]; intros H; [cbn; lia|].
+    cbn [UpperProgress.stk_ok] in H. apply andb_true_iff in H. destruct H as [H Hk].
+    apply andb_true_iff in H. destruct H as [Hf Hl]. apply Nat.leb_le in Hl.
+    cbn [mstk hl capsum]. pose proof (wf_cap nt ns f Hf). specialize (IH Hk).
+    pose proof (capsum_mono nt ns _ _ Hl). lia.
+  Qed.
+
+  Lemma hl_le5 k : (hl k <= 5)%nat.
+  Proof. destruct k as [|f k]; cbn [hl]; [lia|]. destruct f; cbn [lvl]; lia. Qed.
+
+  Lemma mprim_le u p : prim_ok p = true -> mprim u p <= 2 * TH + 3 + B.
+  Proof.
+    intros Hp. pose proof (TH_pos g) as HT.
+    destruct p; cbn [UpperProgress.mprim]; unfold UpperProgress.TU, SU; try lia.
+    - pose proof (stale_tree_le1 policy u i cur). unfold rem.
+      pose proof (mul_le_r _ _ (TH + 2) H). lia.
+    - pose proof (stale_tree_le1 policy u i cur). pose proof (mul_le_r _ _ (TH + 2) H). lia.
+    - pose proof (stale_slot_le1 policy u c idx cur). lia.
+    - destruct th; try lia. pose proof (mu_bound g WF (m1_view u (TRun c p)) c p Hp). lia.
+  Qed.
+
+  Lemma measure_le u p k : prim_ok p = true -> stk_ok (ntrees u) k = true ->
+    mprim u p + W u k <= uboundN (ntrees u) (nslots u).
+  Proof.
+    intros Hp Hk. pose proof (mprim_le u p Hp). pose proof (mstk_le _ (nslots u) k Hk).
+    pose proof (capsum_mono (ntrees u) (nslots u) _ _ (hl_le5 k)). unfold uboundN. lia.
+  Qed.
+
+  Definition ubound (u : upper) : nat := N.to_nat (uboundN (ntrees u) (nslots u)).
+
+  Lemma usoloN_S n s t : usoloN g policy (S n) s t = usoloN g policy n (fst (ustep s t UDrain)) t.
+  Proof. exact (iter_S_r (fun s => fst (ustep s t UDrain)) n s). Qed.
+
+  Lemma usolo_mu t : forall m s c p k, nth_error (m2_pool s) t = Some (URun c p k) ->
+    prim_ok p = true -> stk_ok (ntrees (m2_up s)) k = true ->
+    mprim (m2_up s) p + W (m2_up s) k <= N.of_nat m ->
+    exists n, (n <= m)%nat /\ usettled (usoloN g policy n s t) t = true.
+  Proof.
+    induction m; intros s c p k Hth Hp Hk Hm.
+    - pose proof (mprim_pos g policy (m2_up s) p). lia.
+    - pose proof (ustep_dec s t c p k UDrain Hth Hp Hk) as (_ & _ & _ & Hd).
+      destruct (nth_error (m2_pool (fst (ustep s t UDrain))) t) as [[r|c' p' k'|x c']|] eqn:E; [| | |contradiction].
+      + exists 1%nat. split; [lia|]. unfold usettled. change (usoloN g policy 1 s t) with (fst (ustep s t UDrain)). rewrite E. reflexivity.
+      + destruct Hd as (-> & Hp' & Hk' & Hlt & _).
+        destruct (IHm _ c p' k' E Hp' Hk') as (n & Hn & Hset); [lia|].
+        exists (S n). split; [lia|]. rewrite usoloN_S. exact Hset.
+      + exists 1%nat. split; [lia|]. unfold usettled. change (usoloN g policy 1 s t) with (fst (ustep s t UDrain)). rewrite E. reflexivity.
+  Qed.
+
+  (* ---------- C21u: a call that runs alone finishes within `ubound` steps ---------- *)
+  Theorem usolo_terminates s t : uthread_ok s t ->
+    exists n, (n <= ubound (m2_up s))%nat /\ usettled (usoloN g policy n s t) t = true.
+  Proof.
+    intros Hok. unfold uthread_ok in Hok.
+    destruct (nth_error (m2_pool s) t) as [[r|c p k|x c]|] eqn:Hth.
+    2: { destruct Hok as [Hp Hk]. apply (usolo_mu t (ubound (m2_up s)) s c p k Hth Hp Hk).
+         unfold ubound. rewrite N2Nat.id. apply measure_le; assumption. }
+    all: exists 0%nat; split; [lia|]; change (usoloN g policy 0 s t) with s; unfold usettled; rewrite Hth; reflexivity.
+  Qed.
+
+  (* ---------- well-formedness holds for every thread of every reachable state ---------- *)
+  Definition uall_ok (s : m2state) : Prop := forall t, uthread_ok s t.
+
+  Lemma uthread_ok_other s s' u t : ntrees (m2_up s') = ntrees (m2_up s) ->
+    (forall t', t' <> u -> nth_error (m2_pool s') t' = nth_error (m2_pool s) t') ->
+    t <> u -> uthread_ok s t -> uthread_ok s' t.
+  Proof. intros Hn Hf Hne H. unfold uthread_ok in *. rewrite (Hf t Hne), Hn. exact H. Qed.
+
+  Lemma start_ok s1 t c0 last : nth_error (m2_pool s1) t = Some (UIdle last) -> uall_ok s1 ->
+    uall_ok (apply_settled s1 t c0 (settle g policy SETTLE (m2_up s1) (enter_call g (m2_up s1) c0))).
+  Proof.
+    intros Hth Hall t'. destruct (Nat.eq_dec t' t) as [->|Hne].
+    - unfold uthread_ok. rewrite apply_settled_up, apply_settled_pool.
+      rewrite nth_error_upd_same by (eapply up_nth_lt; exact Hth).
+      destruct (enter_call_leq g policy WF (m2_up s1) c0) as (M & HM).
+      pose proof (settle_le g policy WF SETTLE _ _ _ HM) as Hs.
+      destruct (settle g policy SETTLE (m2_up s1) (enter_call g (m2_up s1) c0)); cbn [thr_of settled_ok] in *; try exact I.
+      destruct Hs as (H1 & _ & H3 & _). split; assumption.
+    - eapply uthread_ok_other; [| | exact Hne | apply Hall].
+      + rewrite apply_settled_up. reflexivity.
+      + intros t2 Hne2. rewrite apply_settled_pool. apply nth_error_upd_other. congruence.
+  Qed.
+
+  Lemma uall_ok_step s u c0 : uall_ok s -> uall_ok (fst (ustep s u c0)).
+  Proof.
+    intros Hall. destruct (nth_error (m2_pool s) u) as [[r|c p k|x c]|] eqn:Hu.
+    - unfold UpperMachine.ustep. rewrite Hu.
+      assert (Hs : uall_ok (apply_settled s u c0 (settle g policy SETTLE (m2_up s) (enter_call g (m2_up s) c0))))
+        by (eapply start_ok; [exact Hu | exact Hall]).
+      destruct c0 as [fr rq|fr rq| |m ch]; cbn [fst]; try exact Hs.
+      destruct (client_take (m2_held s) fr (r_order rq)) as [h'|]; cbn [fst]; [|exact Hall].
+      apply (start_ok (with_held s h') u (UPut fr rq) r); [exact Hu | exact Hall].
+    - pose proof (Hall u) as Hok. unfold uthread_ok in Hok. rewrite Hu in Hok. destruct Hok as [Hp Hk].
+      pose proof (ustep_dec s u c p k c0 Hu Hp Hk) as (Hn1 & _ & Hf & Hd).
+      intros t. destruct (Nat.eq_dec t u) as [->|Hne].
+      + unfold uthread_ok. destruct (nth_error (m2_pool (fst (ustep s u c0))) u) as [[r|c' p' k'|x c']|]; try exact I.
+        destruct Hd as (_ & H1 & H2 & _). split; assumption.
+      + eapply uthread_ok_other; [exact Hn1 | exact Hf | exact Hne | apply Hall].
+    - unfold UpperMachine.ustep. rewrite Hu. exact Hall.
+    - unfold UpperMachine.ustep. rewrite Hu. exact Hall.
+  Qed.
+
+  Lemma uall_ok_run sch : forall s, uall_ok s -> uall_ok (urun g policy sch s).
+  Proof.
+    induction sch as [|[u c0] sch IH]; intros s H; [exact H|].
+    unfold urun in *. cbn [fold_left fst snd]. apply IH, uall_ok_step, H.
+  Qed.
+
+  Lemma uall_ok_boot u h n : uall_ok (uboot u h n).
+  Proof.
+    intros t. unfold uthread_ok, uboot. cbn [m2_pool].
+    destruct (nth_error (repeat (UIdle None) n) t) eqn:E; [|exact I].
+    apply nth_error_In, repeat_spec in E. subst. exact I.
+  Qed.
+
+  Theorem uthread_ok_reachable sch u h n t : uthread_ok (urun g policy sch (uboot u h n)) t.
+  Proof. apply uall_ok_run, uall_ok_boot. Qed.
+
+  Theorem ureachable_solo_terminates u h n sch t :
+    let s := urun g policy sch (uboot u h n) in
+    exists k, (k <= ubound (m2_up s))%nat /\ usettled (usoloN g policy k s t) t = true.
+  Proof. apply usolo_terminates. apply uall_ok_run, uall_ok_boot. Qed.
+
+  (* ---------- CAS-retry primitives: left after at most two solo steps ---------- *)
+  Definition uretry_site (p : prim) : option usite :=
+    match p with
+    | PTC i _ _ _ => Some (USTree i)
+    | PSC c idx _ _ _ => Some (USSlot c idx)
+    | PLow (TRun _ pc) => option_map USLow (retry_site pc)
+    | _ => None
+    end.
+  Definition uat_site (s : m2state) (t : nat) (k : usite) : Prop :=
+    exists c p st, nth_error (m2_pool s) t = Some (URun c p st) /\ uretry_site p = Some k.
+  Definition ustale (u : upper) (p : prim) : N :=
+    match p with
+    | PTC i _ cur _ => stale_tree u i cur
+    | PSC c idx _ cur _ => stale_slot u c idx cur
+    | PLow (TRun c pc) => stale g (m1_view u (TRun c pc)) c pc
+    | _ => 0
+    end.
+
+  Lemma is_entry_no_site p : is_entry p = true -> uretry_site p = None.
+  Proof.
+    destruct p; cbn [is_entry uretry_site]; try discriminate; try reflexivity.
+    destruct th; try discriminate. destruct (retry_site p); [discriminate | reflexivity].
+  Qed.
+
+  Lemma stale_ext s1 s2 c p : ms_ents s1 = ms_ents s2 -> ms_bfs s1 = ms_bfs s2 -> stale g s1 c p = stale g s2 c p.
+  Proof.
+    intros He Hb. destruct p; cbn [stale]; unfold stale_ent, stale_row, rd_ent, rd_row; rewrite ?He, ?Hb; reflexivity.
+  Qed.
+
+  (* a primitive that is still at the same CAS after an access: its cached value was stale and is now current *)
+  Lemma prim_retry u p k u' ev p' : prim_step g policy u p = (u', ev, OStay p') ->
+    uretry_site p = Some k -> uretry_site p' = Some k -> ustale u' p' = 0 /\ ustale u p = 1.
+  Proof.
+    destruct p as [i|i f|i f cur j a|i f cur new|c idx f|c idx f cur new|c idx new|th]; cbn [uretry_site]; try discriminate.
+    - (* PTC *) cbn [prim_step]. destruct (tree_at u i) as [t|] eqn:Et; [|discriminate].
+      destruct (tree_eqb t cur) eqn:Eq; [discriminate|].
+      unfold tu_eval. destruct (needs_fetch f t).
+      + intros H _ H'. injection H as _ _ <-. discriminate H'.
+      + destruct (tf_apply g policy (dflt u) f t 0) as [[nw|e|x]|]; try discriminate.
+        intros H _ _. injection H as <- _ <-. cbn [ustale].
+        split; [apply stale_tree_fresh; exact Et | unfold stale_tree; rewrite Et, Eq; reflexivity].
+    - (* PSC *) cbn [prim_step]. destruct (slot_at u c idx) as [sl|] eqn:Es; [|discriminate].
+      destruct (slot_eqb sl cur) eqn:Eq; [discriminate|].
+      unfold su_eval. destruct (sf_apply g f sl) as [[nw|e|x]|]; try discriminate.
+      intros H _ _. injection H as <- _ <-. cbn [ustale].
+      split; [apply stale_slot_fresh; exact Es | unfold stale_slot; rewrite Es, Eq; reflexivity].
+    - (* PLow *) destruct th as [r|c pc|x c]; try discriminate.
+      destruct (retry_site pc) as [kk|] eqn:Ek; [|discriminate]. cbn [option_map].
+      cbn [prim_step]. set (s0 := m1_view u (TRun c pc)).
+      assert (Hth : nth_error (ms_pool s0) 0 = Some (TRun c pc)) by reflexivity.
+      pose proof (retry_step g s0 0 c pc kk c Hth Ek) as Hr.
+      destruct (mstep g s0 0 c) as [ms' e']. cbn [fst] in Hr.
+      destruct (nth_error (ms_pool ms') 0) as [[[[x|e|x]|]|c' p''|x c']|] eqn:En; try discriminate.
+      intros H Hk Hk'. injection H as <- _ <-. injection Hk as <-.
+      cbn [uretry_site] in Hk'. destruct (retry_site p'') as [k2|] eqn:Ek2; [|discriminate].
+      injection Hk' as ->.
+      destruct (Hr c' p'' En Ek2) as (-> & H0 & H1). cbn [ustale].
+      split; [|exact H1]. rewrite <- H0. apply stale_ext; reflexivity.
+  Qed.
+
+  Lemma usite_eq_dec (a b : option usite) : {a = b} + {a <> b}.
+  Proof. repeat decide equality. Qed.
+
+  Theorem uretry_bounded s t c p st k : uthread_ok s t ->
+    nth_error (m2_pool s) t = Some (URun c p st) -> uretry_site p = Some k ->
+    ~ uat_site (usoloN g policy 1 s t) t k \/ ~ uat_site (usoloN g policy 2 s t) t k.
+  Proof.
+    intros Hok Hth Hk. unfold uthread_ok in Hok. rewrite Hth in Hok. destruct Hok as [Hp Hst].
+    change (usoloN g policy 2 s t) with (fst (ustep (usoloN g policy 1 s t) t UDrain)).
+    change (usoloN g policy 1 s t) with (fst (ustep s t UDrain)).
+    pose proof (ustep_dec s t c p st UDrain Hth Hp Hst) as (_ & _ & _ & Hd).
+    set (s1 := fst (ustep s t UDrain)) in *.
+    destruct (nth_error (m2_pool s1) t) as [[r|c1 p1 k1|x c1]|] eqn:H1.
+    2: destruct (usite_eq_dec (uretry_site p1) (Some k)) as [K1|K1].
+    2: { right. destruct Hd as (_ & Hp1 & Hk1 & _ & [He | (_ & ev & Hps)]).
+         { rewrite (is_entry_no_site p1 He) in K1. discriminate. }
+         destruct (prim_retry _ _ _ _ _ _ Hps Hk K1) as [Hs0 _].
+         intros (c2 & p2 & st2 & H2 & K2).
+         pose proof (ustep_dec s1 t c1 p1 k1 UDrain H1 Hp1 Hk1) as (_ & _ & _ & Hd2).
+         rewrite H2 in Hd2. destruct Hd2 as (_ & _ & _ & _ & [He | (_ & ev2 & Hps2)]).
+         { rewrite (is_entry_no_site p2 He) in K2. discriminate. }
+         destruct (prim_retry _ _ _ _ _ _ Hps2 K1 K2) as [_ Hs1]. lia. }
+    all: left; intros (c' & p' & st' & H & K); rewrite H1 in H; try discriminate H.
+    injection H as <- <- <-. contradiction.
+  Qed.
+
+  (* ---------- the only panic that waits for another thread ---------- *)
+  Theorem uexceeding_retries_only_PP3 s t c p k c0 c' : uthread_ok s t ->
+    nth_error (m2_pool s) t = Some (URun c p k) ->
+    nth_error (m2_pool (fst (ustep s t c0))) t = Some (UPanic SExceedingRetries c') ->
+    exists lc i, p = PLow (TRun lc (PP3 i)).
+  Proof.
+    intros Hok Hth H. unfold uthread_ok in Hok. rewrite Hth in Hok. destruct Hok as [Hp Hst].
+    pose proof (ustep_dec s t c p k c0 Hth Hp Hst) as (_ & _ & _ & Hd).
+    rewrite H in Hd. apply Hd. reflexivity.
+  Qed.
+End UTheorems.
+
+(* ---------- non-vacuity (vm_compute) ---------- *)
+Definition gu : geom := {| hord := 9; tlog := 2 |}.
+Definition pu := pol_simple 2048.
+Definition rqu (o : nat) (c : N) (l : option N) : request := {| r_order := o; r_class := c; r_local := l |}.
+Definition mku (g : geom) (fr : N) (i : init) (classing : list (N * N)) (d : N) : upper :=
+  match llfree_new g fr i classing d (free_all g fr) [] (repeat slot_none 16) with
+  | Ok u => u
+  | _ => {| low := free_all g 0; trees := []; locals := []; dflt := 0 |}
+  end.
+(* 4 trees of 2048 frames, classes 0 and 1 with one slot each *)
+Definition UE := mku gu 8192 IFreeAll [(0, 1); (1, 1)] 1.
+
+(* number of solo steps until thread t is settled *)
+Fixpoint usolo_steps (g : geom) (pol : N -> N -> N -> pol) (fuel : nat) (s : m2state) (t : nat) : option nat :=
+  if usettled s t then Some 0%nat else
+  match fuel with
+  | O => None
+  | S f => option_map S (usolo_steps g pol f (fst (ustep g pol s t UDrain)) t)
+  end.
+Definition thr_at (s : m2state) (t : nat) := nth_error (m2_pool s) t.
+Definition prim_at (s : m2state) (t : nat) := match thr_at s t with Some (URun _ p _) => Some p | _ => None end.
+Definition getu := UGet None (rqu 0 0 (Some 0)).
+
+(* the bound for this configuration; a first get (local miss, neighbourhood search over 3 trees, reservation,
+   lower get, slot swap) takes 11 accesses *)
+Example ubound_values :
+  ntrees UE = 4 /\ nslots UE = 2 /\ boundN gu = 235 /\ uboundN gu 4 2 = 9290 /\
+  uboundN g7 1 1 = 1724.
+Proof. vm_compute. repeat split; reflexivity. Qed.
+
+Example usolo_get_ok :
+  let s := fst (ustep gu pu (uboot UE [] 2) 0 getu) in
+  usolo_steps gu pu 100 s 0 = Some 11%nat /\
+  thr_at (usoloN gu pu 11 s 0) 0 = Some (UIdle (Some (Ok (6144, 0)))).
+Proof. vm_compute. split; reflexivity. Qed.
+
+(* thread 0 has loaded tree entry 3 and is about to reserve it (CAS); thread 1 allocates a frame of that tree
+   in between (get_at): thread 0's CAS fails once, is retried with the value it observed, and succeeds *)
+Definition getat3 := UGet (Some 6144) (rqu 0 1 None).
+Definition Srace := urun gu pu (repeat (0%nat, getu) 6 ++ repeat (1%nat, getat3) 7) (uboot UE [] 2).
+Example usolo_mid_race :
+  thr_at Srace 1 = Some (UIdle (Some (Ok (6144, 1)))) /\
+  prim_at Srace 0 = Some (PTC 3 (FRos 1 0) {| t_free := 2048; t_res := false; t_class := 1 |}
+                                           {| t_free := 0; t_res := true; t_class := 0 |}) /\
+  prim_at (usoloN gu pu 1 Srace 0) 0 =
+    Some (PTC 3 (FRos 1 0) {| t_free := 2047; t_res := false; t_class := 1 |}
+                           {| t_free := 0; t_res := true; t_class := 0 |}) /\
+  prim_at (usoloN gu pu 2 Srace 0) 0 = Some (PLow (TRun (CGet 96 0) (G1L 0))) /\
+  usolo_steps gu pu 100 Srace 0 = Some 7%nat /\
+  thr_at (usoloN gu pu 7 Srace 0) 0 = Some (UIdle (Some (Ok (6145, 0)))).
+Proof. vm_compute. repeat split; reflexivity. Qed.
+
+(* D13 through the upper API (LLFree::put): thread 0 frees frame 0 of an allocated huge frame and stops before
+   the CAS that clears the marker; thread 1 frees frame 1 of the same huge frame and spins on the marker.
+   Alone, thread 1 panics "Exceeding retries"; after one step of thread 0 the same call completes. *)
+Definition p7 := pol_simple 256.
+Definition U7 := mku g7 256 IAllocAll [(0, 1)] 0.
+Definition put7 (f : N) := UPut f (rqu 0 0 None).
+Definition sch7 : list (nat * ucall) :=
+  [(0%nat, put7 0); (0%nat, put7 0); (0%nat, put7 0); (0%nat, put7 0);
+   (1%nat, put7 1); (1%nat, put7 1); (1%nat, put7 1)].
+Theorem uknown_wait :
+  let s := urun g7 p7 sch7 (uboot U7 (alloc_all_held g7 256) 2) in
+  wf_geom g7 /\ uheld_ok s = true /\
+  prim_at s 0 = Some (PLow (TRun (CPut 0 0) (PP2 MARK))) /\
+  prim_at s 1 = Some (PLow (TRun (CPut 1 0) (PP3 0))) /\
+  thr_at (usoloN g7 p7 4 s 1) 1 = Some (UPanic SExceedingRetries (put7 1)) /\
+  thr_at (usoloN g7 p7 7 (fst (ustep g7 p7 s 0 UDrain)) 1) 1 = Some (UIdle (Some (Ok (0, 0)))).
+Proof. split; [unfold wf_geom; cbn; lia|]. vm_compute. repeat split; reflexivity. Qed.
